@@ -30,6 +30,14 @@ class Arr(object):
         self.col = col
 
 
+class ColView(object):
+    """`name = arr[:, dim]`: a view of the generic periodic column (writes
+    through `name[mask] = v` land in the array)."""
+
+    def __init__(self, arr):
+        self.arr = arr
+
+
 class Domain(object):
     def const(self, v):
         raise NotImplementedError
@@ -202,6 +210,12 @@ class Interp(object):
         if isinstance(n, ast.Assign):
             if len(n.targets) != 1:
                 raise NotModelled('multiple assignment targets')
+            if isinstance(n.targets[0], ast.Name) and \
+                    isinstance(n.value, ast.Subscript):
+                base = self.expr(n.value.value)
+                if isinstance(base, Arr) and self._is_col(n.value.slice):
+                    self.env[n.targets[0].id] = ColView(base)
+                    return
             v = self.expr(n.value)
             self.assign(n.targets[0], v)
             return
@@ -242,6 +256,19 @@ class Interp(object):
         if isinstance(tgt, ast.Name):
             self.env[tgt.id] = v
             return
+        if isinstance(tgt, ast.Subscript) and \
+                isinstance(tgt.value, ast.Name) and \
+                isinstance(self.env.get(tgt.value.id), ColView):
+            # masked write through a column view
+            arr = self.env[tgt.value.id].arr
+            mask = self.expr(tgt.slice)
+            new = v if not isinstance(v, Arr) else v.col
+            if isinstance(mask, bool):
+                if mask:
+                    arr.col = new
+            else:
+                arr.col = self.d.ite(mask, new, arr.col)
+            return
         if isinstance(tgt, ast.Subscript):
             arr = self.expr(tgt.value)
             if isinstance(arr, Arr) and self._is_col(tgt.slice):
@@ -272,6 +299,8 @@ class Interp(object):
         if isinstance(n, ast.Name):
             if n.id not in self.env:
                 raise NotModelled('name %s' % n.id)
+            if isinstance(self.env[n.id], ColView):
+                return self.env[n.id].arr.col
             return self.env[n.id]
         if isinstance(n, ast.Attribute):
             src = ast.unparse(n)
